@@ -100,6 +100,16 @@ def gen_cases(tier, rng):
         if n - 8 >= 0: one([rect(1, 2, 3, 4, 5, 6, 16, 1, fill(n - 8, 4))])
         add([(fp_frame(fp_unknown(7, fill(size, 5)) + fp_bitmap([tail[0]]) + fp_color(xor=fill(size, 6), andm=b"") + fp_bitmap([tail[0]])), [tail[1], tail[1]])])
     add([(fp_frame(fp_bitmap([])), [])])
+    # the same kinds of PDU sequence with ALL frames already waiting in the transport (one read per frame): an empty PDU (header
+    # only, both length forms) must not swallow what follows it
+    def addq(pdus):
+        steps = activation() + ["Q:" + ",".join(hx(f) for f, _ in pdus)]
+        evs = [e for _, es in pdus for e in es]
+        cases.append((case(steps), ("c10", (tuple(evs),))))
+    bm = (fp_frame(fp_bitmap([tail[0]])), [tail[1]])
+    for empty in (fp_frame(b"", long=False), fp_frame(b"", long=True), fp_frame(fp_bitmap([]))):
+        addq([(empty, []), bm]); addq([bm, (empty, []), bm]); addq([(empty, []), (empty, []), bm, bm])
+    addq([bm, bm, bm]); addq([(fp_frame(fp_ptr_null()), []), bm, (fp_frame(fp_sync()), []), bm])
     # fast-path length forms: empty PDU, last short length 0x7f, first long 0x80, long form of small PDUs, 0xff/0x100, 0x3fff/0x4000, 0x7fff
     add([(fp_frame(b"", long=False), []), (fp_frame(b"", long=True), []), (fp_frame(fp_bitmap([tail[0]])), [tail[1]])])
     for total, long in ((0x7e, False), (0x7f, False), (0x7f, True), (0x80, True), (0x81, True), (0xff, True), (0x100, True), (0x101, True),
